@@ -62,6 +62,9 @@ func init() {
 				if err := tvRunOpts(ctx, gen.RandomLookalikes(int64(seed), 150+350*ctx.TierN(), 3), tvOpts{Mode: "lookalike", Census: "errors"}); err != nil {
 					return err
 				}
+				if err := tvRunOpts(ctx, gen.RandomLiberal(int64(seed), 200+300*ctx.TierN(), 3), tvOpts{Mode: "lookalike", Census: "errors"}); err != nil {
+					return err
+				}
 			}
 			return nil
 		},
